@@ -310,7 +310,12 @@ def _emitter(run, tag, f: Func, want_bytes: bool):
         if isinstance(a, (ast.Assign, ast.AnnAssign)) and a.value is not None:
             tg = a.targets if isinstance(a, ast.Assign) else [a.target]
             if any(isinstance(t, ast.Name) and t.id == R for t in tg):
-                contrib[n.id] = ('set', a.value, _mentions_store(p, f, a.value, denoters))
+                v = a.value
+                # `R = R + <expr>` accumulates exactly like `R += <expr>`
+                if isinstance(v, ast.BinOp) and isinstance(v.op, ast.Add) and isinstance(v.left, ast.Name) and v.left.id == R:
+                    contrib[n.id] = ('add', v.right, _mentions_store(p, f, v.right, denoters))
+                else:
+                    contrib[n.id] = ('set', a.value, _mentions_store(p, f, a.value, denoters))
         elif isinstance(a, ast.AugAssign) and isinstance(a.target, ast.Name) and a.target.id == R:
             if not isinstance(a.op, ast.Add):
                 raise UnknownIdiom('%s: %s' % (f.qual, short(a)))
